@@ -320,6 +320,9 @@ def read_cgsmiles(pattern):
                         # store the previous anchor so we can do the math for nested
                         # branches
                         prev_anchor = ref_anchor
+                    # all nested branches added; the next copy of the
+                    # unit continues from the base anchor
+                    prev_node = base_anchor
                 # all branches added; then go back to the base anchor
                 prev_node = base_anchor
             #================================================
